@@ -516,6 +516,15 @@ func c05TimedJSON(c c05TimedCase, o c05TimedOut, model string) map[string]any {
 		"impl_result": o.Res, "impl_elapsed_ns": int64(o.Elapsed), "impl_sends": o.Sends, "model": model, "oracle_line": c05TimedLine(c)}
 }
 
+// c05TimedLimit is the watchdog budget of a timed case: well beyond any bound of C08.
+func c05TimedLimit(c c05TimedCase) time.Duration {
+	n := c.Max - c.Min + 2
+	if n < 2 {
+		n = 2
+	}
+	return 3*time.Duration(n)*(c.Timeout+c.Delay+2*c.Poll+c.sigma()) + 10*time.Second
+}
+
 // c05TimedCorrespondence runs n timed cases per engine and compares with the Lean timed model.
 // It returns the cases, outcomes and parsed model finish times for further (C08) judgement.
 type c05TimedItem struct {
@@ -525,25 +534,37 @@ type c05TimedItem struct {
 	Fin   int64
 }
 
-func c05TimedBatch(t *testing.T, rep *hx.Report, orc *hx.Oracle, prefix string, cases []c05TimedCase) []c05TimedItem {
-	items := make([]c05TimedItem, len(cases))
-	lines := make([]string, len(cases))
-	for i, c := range cases {
-		n := c.Max - c.Min + 2
-		if n < 2 {
-			n = 2
+// judge, if not nil, evaluates the property's specification on the implementation's outcomes first
+// and returns the indices it reported; the model comparison is then skipped for those.
+func c05TimedBatch(t *testing.T, rep *hx.Report, orc *hx.Oracle, prefix string, cases []c05TimedCase, judge func(items []c05TimedItem) map[int]bool) []c05TimedItem {
+	items := make([]c05TimedItem, 0, len(cases))
+	lines := make([]string, 0, len(cases))
+	hung := 0
+	for _, c := range cases {
+		o := c05RunTimed(t, c, c05TimedLimit(c))
+		items = append(items, c05TimedItem{C: c, O: o})
+		lines = append(lines, c05TimedLine(c))
+		if o.TimedOut {
+			if hung++; hung >= 12 { // every further case would only burn the watchdog's budget again
+				rep.Note("%s stream stopped after %d runs that did not return (%d of %d cases executed)", prefix, hung, len(items), len(cases))
+				break
+			}
 		}
-		bound := time.Duration(n)*(c.Timeout+c.Delay+2*c.Poll+c.sigma()) + time.Second
-		items[i] = c05TimedItem{C: c, O: c05RunTimed(t, c, 20*bound+time.Minute)}
-		lines[i] = c05TimedLine(c)
 	}
 	answers, err := orc.Batch(lines)
 	if err != nil {
 		t.Fatalf("oracle(timed): %v", err)
 	}
 	for i := range items {
+		items[i].Model = answers[i]
+		_, items[i].Fin, _, _ = c05ParseTimed(answers[i])
+	}
+	reported := map[int]bool{}
+	if judge != nil {
+		reported = judge(items)
+	}
+	for i := range items {
 		it := &items[i]
-		it.Model = answers[i]
 		c, o := it.C, it.O
 		stream := prefix + "-" + c.Engine
 		kind := strings.SplitN(o.Res, " ", 3)
@@ -559,8 +580,15 @@ func c05TimedBatch(t *testing.T, rep *hx.Report, orc *hx.Oracle, prefix string, 
 				Sig: map[string]string{"engine": c.Engine, "stream": stream, "defect": "no-return"}, Replay: c05TimedJSON(c, o, answers[i])})
 			continue
 		}
+		if reported[i] {
+			continue
+		}
+		if o.FloatBad != "" {
+			rep.Violate(hx.Violation{Kind: "spec", What: "ToHops milliseconds do not correspond to the probe's duration: " + o.FloatBad,
+				Sig: map[string]string{"engine": c.Engine, "stream": stream, "defect": "float-ms"}, Replay: c05TimedJSON(c, o, answers[i])})
+			continue
+		}
 		mres, fin, sends, ok := c05ParseTimed(answers[i])
-		it.Fin = fin
 		if !ok {
 			rep.Violate(hx.Violation{Kind: "correspondence", NoInput: true, What: "oracle could not evaluate a timed case: " + answers[i],
 				Sig: map[string]string{"stream": stream}, Replay: c05TimedJSON(c, o, answers[i])})
@@ -662,7 +690,7 @@ func c05RunWire(t *testing.T, c c05WireCase, cancelAt time.Duration, flood func(
 			}()
 		}
 		count := c.Cfg.Max - c.Cfg.Min + 1
-		limit := 20*(time.Duration(count)*(c.Timeout+c.Delay+c.Poll+c.WriteDur)+c.Timeout) + time.Minute
+		limit := 3*(time.Duration(count)*(c.Timeout+c.Delay+c.Poll+c.WriteDur)+c.Timeout) + 10*time.Second
 		obs.Run = c05RunEngine(c.Engine, tap, tap.kill, c.params(), cancelAt, limit)
 		close(stop)
 		fwg.Wait()
@@ -1099,7 +1127,7 @@ func TestC05(t *testing.T) {
 		eng := []string{"par", "ser"}[i%2]
 		tcs = append(tcs, c05GenTimed(rng, eng, i%5 == 0))
 	}
-	c05TimedBatch(t, rep, orc, "timed", tcs)
+	c05TimedBatch(t, rep, orc, "timed", tcs, nil)
 
 	// end-to-end
 	c05RunE2e(rep, orc, rng, env.Scale(2000, 30000), t)
